@@ -187,6 +187,10 @@ class Interp:
             return self._leaf(f"{self.text_of(base)}[{self.text_of(idx)}]")
         if isinstance(e, ast.BinOp):
             l, r = self.ev(p, e.left), self.ev(p, e.right)
+            if isinstance(l, Obj) and '__index__' in l.fields:
+                l = Aff.sym(self.canon(l.text))
+            if isinstance(r, Obj) and '__index__' in r.fields:
+                r = Aff.sym(self.canon(r.text))
             if isinstance(l, Aff) and isinstance(r, Aff):
                 if isinstance(e.op, ast.Add):
                     return l + r
